@@ -18,12 +18,14 @@ RULE = ('generated (m=2..5,t,PRSS,l) x small integer programs (every value opene
         'party p; enumerated completely per case: every frame boundary of p x byte cuts {0,1,11,12,13,mid,len-1} '
         'x {EOF, silence}; oracle = every output completed by a surviving party equals the reference; '
         'evaluations = crash runs; non-trivial = crash runs that leave a partial frame (0 < cut < frame length) on '
-        'a connection; exhaustive per case over the crash points of p, sampled over programs/schedules')
+        'a connection; exhaustive per case over the crash points of p (at most 90 frame boundaries, beyond that an '
+        'evenly spaced subset and the case is not counted as exhaustive), sampled over programs/schedules')
 ASSUMPTIONS = ['one crashing party per run; a crash = stop for good (no further callbacks, writes discarded, inbound '
                'data discarded), peers get an orderly EOF after the bytes already written, or nothing',
                'same seeds and schedule make each faulty run identical to the reference run up to the crash']
 
-CASE_TIMEOUT = 600
+CASE_TIMEOUT = 1800
+MAX_BOUNDARIES = 90
 CUTS = (0, 1, 11, 12, 13, 'mid', 'last')
 
 
@@ -105,7 +107,16 @@ def run_case(case):
     nframes = sim0.frames_written[p]
     # frame lengths of p in write order are not needed up front: the plan reports the length it cut
     runs = nt = completed_after = 0
-    for k in range(nframes):
+    # bound the cost of one case: beyond MAX_BOUNDARIES frame boundaries an evenly spaced subset (with both
+    # ends) is enumerated and the cell is not reported as exhaustive
+    ks = list(range(nframes))
+    complete = True
+    if nframes > MAX_BOUNDARIES:
+        step = nframes / MAX_BOUNDARIES
+        ks = sorted({int(i * step) for i in range(MAX_BOUNDARIES)} | {0, nframes - 1})
+        complete = False
+        labels.append('boundaries-subsampled')
+    for k in ks:
         length = None
         for cut in CUTS:
             for eof in (True, False):
@@ -134,4 +145,4 @@ def run_case(case):
                 completed_after += sum(1 for o in outs if o[0] != p)
     labels.append(f'frames={min(nframes, 200) // 20 * 20}+')
     labels.append('survivor-outputs' if completed_after else 'no-survivor-outputs')
-    return Outcome(True, labels=labels, n=max(runs, 1), n_nt=nt, exhaustive=True)
+    return Outcome(True, labels=labels, n=max(runs, 1), n_nt=nt, exhaustive=complete)
